@@ -16,6 +16,19 @@ import (
 	"github.com/fatih/color"
 )
 
+// absPrefix: when a case gives its target as "@JAIL/..." the target is the ABSOLUTE path of the jail plus the rest
+// (written as given: not cleaned), and reported paths are shown relative to the jail again.
+var absPrefix string
+
+func jailTarget(t string) string {
+	absPrefix = ""
+	if strings.HasPrefix(t, "@JAIL") {
+		absPrefix = jail.dir + "/"
+		return jail.dir + strings.TrimPrefix(t, "@JAIL")
+	}
+	return t
+}
+
 func verifyLists(msg string) string {
 	// "Extra paths exist:\n\t<p>\n...Required paths does not exist:\n\t<p>..."
 	var extra, missing []string
@@ -27,7 +40,11 @@ func verifyLists(msg string) string {
 		case strings.HasPrefix(l, "Required paths does not exist:"):
 			cur = &missing
 		case strings.HasPrefix(l, "\t"):
-			*cur = append(*cur, hx(strings.TrimPrefix(l, "\t")))
+			p := strings.TrimPrefix(l, "\t")
+			if absPrefix != "" {
+				p = strings.TrimPrefix(p, absPrefix)
+			}
+			*cur = append(*cur, hx(p))
 		}
 	}
 	sort.Strings(extra)
@@ -252,7 +269,7 @@ func histMore(f []string, node func(string) *gtree.Node, massive bool) (string, 
 				opts = append(opts, gtree.WithStrictVerify())
 			}
 			if f[3] != "-" {
-				opts = append(opts, gtree.WithTargetDir(unhex(f[3])))
+				opts = append(opts, gtree.WithTargetDir(jailTarget(unhex(f[3]))))
 			}
 			opts = append(opts, mopt...)
 			opts = append(opts, encOpt(f, 4)...)
@@ -267,7 +284,7 @@ func histMore(f []string, node func(string) *gtree.Node, massive bool) (string, 
 				opts = append(opts, gtree.WithStrictVerify())
 			}
 			if f[2] != "-" {
-				opts = append(opts, gtree.WithTargetDir(unhex(f[2])))
+				opts = append(opts, gtree.WithTargetDir(jailTarget(unhex(f[2]))))
 			}
 			opts = append(opts, mopt...)
 			opts = append(opts, encOpt(f, 4)...)
